@@ -96,7 +96,11 @@ def m_fy(x, ans):
 def m_pyshuffle(x, ans):
     a = list(x)
     for i in reversed(range(1, len(a))):
+        if not ans:
+            raise MirrorMismatch()
         j = ans.pop(0)
+        if not 0 <= j <= i:
+            raise MirrorMismatch()
         a[i], a[j] = a[j], a[i]
     return a
 
